@@ -182,10 +182,12 @@ func genFops(r *hx.Rng, bitsOnly bool) []fop {
 // ---------------------------------------------------------------- ByteWriter over a limited io.Writer
 var errShort = errors.New("limited writer full")
 
-// limitedWriter accepts max bytes in total; a Write that does not fit stores what fits and fails.
+// limitedWriter accepts max bytes in total; a Write that does not fit stores what fits and fails
+// (reject = true, search only: stores nothing and fails, so that a later smaller Write could succeed).
 type limitedWriter struct {
-	buf []byte
-	max int
+	buf    []byte
+	max    int
+	reject bool
 }
 
 func (l *limitedWriter) Write(p []byte) (int, error) {
@@ -193,6 +195,9 @@ func (l *limitedWriter) Write(p []byte) (int, error) {
 	if len(p) <= room {
 		l.buf = append(l.buf, p...)
 		return len(p), nil
+	}
+	if l.reject {
+		return 0, errShort
 	}
 	l.buf = append(l.buf, p[:room]...)
 	return room, errShort
@@ -657,7 +662,7 @@ func searchExt(r *hx.Rng, ops []wop) int {
 		if len(want) > max {
 			want = want[:max]
 		}
-		lw := &limitedWriter{max: max}
+		lw := &limitedWriter{max: max, reject: r.Bool()}
 		bw := bits.NewByteWriter(lw)
 		for j, o := range bops {
 			had, before := bw.AccError() != nil, len(lw.buf)
@@ -666,6 +671,9 @@ func searchExt(r *hx.Rng, ops []wop) int {
 				fail("bits.ByteWriter", "writes-after-error", fmt.Sprintf("max=%d %s", max, fopsString(bops)), fmt.Sprintf("op %d wrote although AccError was set", j))
 				break
 			}
+		}
+		if lw.reject && bytes.HasPrefix(full, lw.buf) { // all-or-nothing writes: some prefix of the encodings
+			want = lw.buf
 		}
 		if !bytes.Equal(lw.buf, want) || (bw.AccError() != nil) != (len(full) > max) {
 			fail("bits.ByteWriter", "big-endian", fmt.Sprintf("max=%d %s", max, fopsString(bops)), fmt.Sprintf("bytes %s err=%v, the encodings are %s", hx.Hex(lw.buf), bw.AccError(), hx.Hex(full)))
